@@ -475,9 +475,28 @@ func runC17(c *Ctx) *Violation {
 		c.Put("shared_mapseq_through_json", true)
 	}
 	escape := t.Draw(3) == 2
+	// a fixed, drawn option configuration (one case in four): "options left alone" means not
+	// changed while goroutines run, not that they have their default values
+	var optSteps []optStep
+	if t.Draw(4) == 3 {
+		dummy := defaultModel()
+		var names []string
+		for i, n := 0, 1+t.Small(3); i < n; i++ {
+			st := drawStep(t, &dummy)
+			st.Do(&dummy)
+			optSteps = append(optSteps, st)
+			names = append(names, st.Name)
+		}
+		resetPackageState()
+		c.Put("options", names)
+	}
 	applyOpts := func() {
 		if escape {
 			mxj.XMLEscapeChars(true)
+		}
+		m := defaultModel()
+		for _, st := range optSteps {
+			st.Do(&m)
 		}
 	}
 	applyOpts()
